@@ -474,3 +474,64 @@ def run_check(plugin, tier, seed, replay=None):
 def _errs(text):
     ls = [l for l in text.splitlines() if 'error' in l.lower()]
     return ' ; '.join(ls[:6])[:1200]
+
+
+# ------------------------------------------------------------------ scripted (stateful) differential runs
+def run_script(exe, driver_name, cases, env=None, timeout=1800, use_driver=True, harness_args=()):
+    """cases: list of op-line lists.  Runs harness and driver on `case k` + ops for all cases.
+    Returns list of dicts {ops, impl, model, crashed}."""
+    lines = []
+    bounds = []
+    for k, c in enumerate(cases):
+        bounds.append(len(lines))
+        lines.append('case %d' % k)
+        lines += list(c)
+    text = '\n'.join(lines) + '\n'
+    rc, out, err = sh([exe] + list(harness_args), input=text, timeout=timeout, env=env)
+    ops, impl, stats, viols = parse_transcript(out)
+    model = []
+    if use_driver:
+        rcd, model, derr = run_driver(driver_name, lines, timeout=timeout)
+    results = []
+    for k, c in enumerate(cases):
+        lo = bounds[k]
+        hi = bounds[k + 1] if k + 1 < len(cases) else len(lines)
+        r = {'ops': lines[lo + 1:hi], 'impl': impl[lo + 1:hi] if len(impl) > lo else [], 'model': model[lo + 1:hi] if use_driver else None,
+             'crashed': False}
+        if len(impl) < hi:   # harness died inside (or before) this case
+            r['crashed'] = len(impl) >= lo or (k == 0)
+            r['impl'] = impl[lo + 1:hi] if len(impl) > lo else []
+            r['stderr'] = err[-800:]
+            r['rc'] = rc
+        results.append(r)
+    return results, stats, viols, (rc, err)
+
+
+def ddmin(items, failing, max_tests=400):
+    """Delta debugging: minimal sublist of `items` for which failing(sublist) is True."""
+    n = 2
+    tests = 0
+    cur = list(items)
+    while len(cur) >= 2 and tests < max_tests:
+        chunk = max(1, len(cur) // n)
+        subsets = [cur[i:i + chunk] for i in range(0, len(cur), chunk)]
+        reduced = False
+        for i in range(len(subsets)):
+            comp = [x for j, sset in enumerate(subsets) if j != i for x in sset]
+            tests += 1
+            if comp and failing(comp):
+                cur = comp
+                n = max(n - 1, 2)
+                reduced = True
+                break
+        if not reduced:
+            if n >= len(cur):
+                break
+            n = min(len(cur), n * 2)
+    return cur
+
+
+def case_disagrees(exe, driver_name, ops, env=None):
+    rs, _, _, _ = run_script(exe, driver_name, [ops], env=env, timeout=120)
+    r = rs[0]
+    return r['crashed'] or r['impl'] != r['model'][:len(r['impl'])] or len(r['impl']) != len(r['ops'])
